@@ -2545,6 +2545,11 @@ int32 tls13WriteClientHello(ssl_t *ssl, sslBuf_t *out,
                 ssl->tls13ClientCipherSuitesLen,
                 PS_FALSE);
         data = psDynBufDetachPsSize(&ciphersBuf, &dataLen);
+        if (data == NULL)
+        {
+            psDynBufUninit(&chBuf);
+            return PS_MEM_FAIL;
+        }
         /* CipherSuite cipher_suites<2..2^16-2>; */
         psDynBufAppendTlsVector(&chBuf,
                 2, (1 << 16) - 2,
